@@ -113,6 +113,30 @@ theorem zip4_flat (f : α → α → α) (a b : V4 α) (k c h w : Nat) (ha : Dim
     (fun x y hx hy => zip3_flat f x y c h w hx hy)
     a b (by rw [ha.1, hb.1]) ha.2 hb.2
 
+/-! ### the truncating `zipWith` (used where Rust collects a new vector) agrees with the in-place zip
+on equal dimensions -/
+
+theorem zipWith_eq_zipKeep_of (g g' : β → β → β) : ∀ (a b : List β), a.length = b.length →
+    (∀ x ∈ a, ∀ y ∈ b, g x y = g' x y) → List.zipWith g a b = zipKeep g' a b
+  | [], [], _, _ => rfl
+  | x :: xs, y :: ys, h, hg => by
+    simp only [List.zipWith_cons_cons, zipKeep]
+    rw [hg x (List.mem_cons_self ..) y (List.mem_cons_self ..),
+      zipWith_eq_zipKeep_of g g' xs ys (by simpa using h)
+        (fun x hx y hy => hg x (List.mem_cons_of_mem _ hx) y (List.mem_cons_of_mem _ hy))]
+  | [], _ :: _, h, _ => by simp at h
+  | _ :: _, [], h, _ => by simp at h
+
+theorem zipWith2_eq_zip2 (f : α → α → α) (a b : V2 α) (h w : Nat) (ha : Dims2 a h w) (hb : Dims2 b h w) :
+    List.zipWith (List.zipWith f) a b = zip2 f a b :=
+  zipWith_eq_zipKeep_of _ _ a b (by rw [ha.1, hb.1])
+    (fun x hx y hy => (zipKeep_eq_zipWith f x y (by rw [ha.2 x hx, hb.2 y hy])).symm)
+
+theorem zipWith3_eq_zip3 (f : α → α → α) (a b : V3 α) (c h w : Nat) (ha : Dims3 a c h w) (hb : Dims3 b c h w) :
+    List.zipWith (List.zipWith (List.zipWith f)) a b = zip3 f a b :=
+  zipWith_eq_zipKeep_of _ _ a b (by rw [ha.1, hb.1])
+    (fun x hx y hy => zipWith2_eq_zip2 f x y h w (ha.2 x hx) (hb.2 y hy))
+
 /-! ### maps -/
 theorem map2_flat (f : α → α) (m : V2 α) : (map2 f m).flatten = m.flatten.map f := by
   induction m with
